@@ -73,11 +73,11 @@ CHECKS = {
    ref="DESIGN.md §5 C10",
    note="Solver correctness is trusted; certificates use 20x the solver's own tolerance; runs where MultiTaskLasso hits max_iter are skipped and counted."),
  "C11": dict(
-   cat="proof", technique="Lean 4 theorems (column-prefix law, bound check, orthonormal => transpose is a left inverse and rank-<=k data reproduced, Gram-inverse left inverse, RP modes in the span of the examples) + exact/numeric differential on the real bases",
+   cat="proof", technique="Lean 4 theorems (column-prefix law, bound check, orthonormal => transpose is a left inverse and rank-<=k data reproduced, Gram-inverse left inverse, RP modes in the span of the examples) + exact/numeric differential on the real bases + translator regenerating what each basis stores at fit, what matrix_representation returns and how each inverse is formed (basesProg = BasesProg.spec by decide; the representation evaluates to takeCols)",
    text="takeCols_takeCols/_get/_shape, rep_rejects_gt, identity_exact, orthonormal_left_inverse, rank_k_reproduced, gram_pinv_left_inverse, rp_modes_in_span; real Identity/SVD/RandomProjection/Custom bases are checked bitwise for slicing, "
         "Identity, copy semantics and repeatability, numerically (1e-8) for orthonormality, reproduction and pinv.",
    ref="DESIGN.md §5 C11",
-   note="PARTIAL on numerics: TruncatedSVD, GaussianRandomProjection and numpy.linalg.pinv are parameters whose contracts (orthonormal components, pinv) are validated numerically. Custom works after fix b442c2e."),
+   note="Generated/Bases.lean (harness/translate_bases.py): bases_glue, bases_rep_is_takeCols – the method bodies must be exactly validation + the one modelled expression. PARTIAL on numerics: TruncatedSVD, GaussianRandomProjection and numpy.linalg.pinv are parameters whose contracts (orthonormal components, pinv) are validated numerically. Custom works after fix b442c2e."),
  "C12": dict(
    cat="proof", technique="Lean 4 theorems about exact rational shape predicates (filter in ranking order, in/out partition, closed-shape iffs, strictly-right-of-line, even-odd rule on rectangles) + translator regenerating every shape's constraint_function from the source AST into Lean with a kernel-checked equality to the model + exact differential with dyadic parameters",
    text="harness/translate_shapes.py re-derives on every run, from the current AST of _constraints.py (__init__ attribute definitions inlined), the expression each of the six constraint_function methods evaluates; lake re-checks shape_<Class> (regenerated expression = hand-written model for every parameter, loc, axis and point), "
